@@ -11,7 +11,7 @@ libraries.  The loops over the cluster list are modelled as written.
 -/
 import CtyModel.Stdlib.Number
 namespace CtyModel
-namespace Stdlib
+namespace StdNum
 
 /-- `cty.StringVal(s)`: the string enters the value NFC-normalised -/
 def stringVal (nfc : String → String) (s : String) : Value := ⟨.string, .s (nfc s)⟩
@@ -108,5 +108,5 @@ def indentImpl (nfc : String → String) (args : List Value) : Res Value := do
     if spaces > indentMax then .unmodelled
     else pure (stringVal nfc (String.ofList (indentChars spaces.toNat data.toList)))
 
-end Stdlib
+end StdNum
 end CtyModel
